@@ -3,6 +3,8 @@ package main
 // The property table: which harnesses decide which property, with the bounds
 // of each tier. Bounds registered here have run clean on the unchanged tree.
 
+import "strings"
+
 var properties = map[string]*property{}
 
 func init() {
@@ -29,9 +31,10 @@ func init() {
 	}
 	properties["C03"] = &property{
 		ID: "C03", Level: "model_checking", Kinds: []string{"history"},
-		Harnesses: relHarnesses([]string{"gsxHistVisit_", "gsxHistWalk_"}, "history",
-			[]map[string]int{{"K": 3, "B": 2, "strlen": 8, "paths": 300, "wall_s": 6}, {"K": 2, "B": 2, "strlen": 8, "paths": 150, "wall_s": 5}},
-			[]map[string]int{{"K": 4, "B": 2, "strlen": 8, "paths": 20000, "wall_s": 300}, {"K": 3, "B": 2, "strlen": 8, "paths": 10000, "wall_s": 300}}),
+		Harnesses: append([]harness{{Name: "gsxC03FileInfo", Pkg: "linter", Quick: map[string]int{"strlen": 3, "paths": 4000, "wall_s": 120}, MustReach: []string{"set"}}},
+			relHarnesses([]string{"gsxHistVisit_", "gsxHistWalk_"}, "history",
+				[]map[string]int{{"K": 3, "B": 2, "strlen": 8, "paths": 300, "wall_s": 6}, {"K": 2, "B": 2, "strlen": 8, "paths": 150, "wall_s": 5}},
+				[]map[string]int{{"K": 4, "B": 2, "strlen": 8, "paths": 20000, "wall_s": 300}, {"K": 3, "B": 2, "strlen": 8, "paths": 10000, "wall_s": 300}})...),
 		Assumptions: []string{"as C01; one step of history (an arbitrary earlier input) from the initial checker state, against a fresh instance"},
 	}
 	properties["C13"] = &property{
@@ -43,9 +46,10 @@ func init() {
 	}
 	properties["C02"] = &property{
 		ID: "C02", Level: "model_checking", Kinds: []string{"repeat"},
-		Harnesses: relHarnesses([]string{"gsxRepeat_"}, "repeat",
-			[]map[string]int{{"K": 2, "B": 3, "strlen": 6, "paths": 600, "wall_s": 15}},
-			[]map[string]int{{"K": 3, "B": 4, "strlen": 6, "paths": 20000, "wall_s": 300}}),
+		Harnesses: append([]harness{{Name: "gsxC02RuleOrder", Pkg: "checkers", Quick: map[string]int{"strlen": 3, "paths": 4000, "wall_s": 120}, MapOrder: 4, NoValidate: true, ReplayFn: replayRuleOrder, MustReach: []string{"ran twice"}}},
+			relHarnesses([]string{"gsxRepeat_"}, "repeat",
+				[]map[string]int{{"K": 2, "B": 3, "strlen": 6, "paths": 600, "wall_s": 15}},
+				[]map[string]int{{"K": 3, "B": 4, "strlen": 6, "paths": 20000, "wall_s": 300}})...),
 		Assumptions: []string{"as C01; the iteration order of every Go map with at most 4 entries is an independent nondeterministic permutation at each range statement"},
 	}
 	{
@@ -95,6 +99,21 @@ func init() {
 		Assumptions: []string{"environment models: the sub-command runner calls the check command with the given arguments; the stock single-checker driver sets the analyzer flags and runs the analyzer once on a package; package loading returns no packages; the rule engine is the C17 model with two built-in rule groups that exist from process start"}}
 	properties["C11"] = &property{ID: "C11", Level: "translation_validation", Extra: runC11, ReplayExtra: replayC11,
 		Assumptions: []string{"patterns: the repository's own examples plus a bounded grammar (see evidence); Go's regexp/syntax parser is the semantics' front end; subjects are byte strings"}}
+	{
+		// checkers that quote syntax (original and/or suggested code) in their messages
+		var hs []harness
+		quoting := quotingCheckers()
+		for _, h := range visitHarnesses(map[string]int{"K": 3, "B": 2, "strlen": 8, "paths": 1000, "wall_s": 25}, map[string]int{"K": 4, "B": 2, "strlen": 8, "paths": 30000, "wall_s": 600}) {
+			if strings.HasPrefix(h.Name, "gsxVisit_") && quoting[strings.TrimPrefix(h.Name, "gsxVisit_")] {
+				hs = append(hs, h)
+			}
+		}
+		hs = append(hs,
+			harness{Name: "gsxC09CommentFix", Pkg: "checkers", Quick: map[string]int{"strlen": 10, "paths": 4000, "wall_s": 120}, MustReach: []string{"checked", "reported", "re-analysed"}},
+			harness{Name: "gsxC09RuleFix", Pkg: "checkers", Quick: map[string]int{"strlen": 4, "paths": 4000, "wall_s": 120}, NoValidate: true, Replay: "none", MustReach: []string{"checked"}})
+		properties["C09"] = &property{ID: "C09", Level: "model_checking", Kinds: []string{"suggest"}, Harnesses: hs,
+			Assumptions: []string{"as C01; the syntax trees handed to the message printer are checked against go/ast's documented well-formedness (required children present); confirmed natively: the printed suggestion parses as the replaced category, substituted for the original the file type-checks with the same type, and re-analysis does not report at that place"}}
+	}
 	properties["C07"] = &property{
 		ID: "C07", Level: "model_checking", Kinds: []string{"pos"},
 		Harnesses:   visitHarnesses(map[string]int{"K": 3, "B": 2, "strlen": 8, "paths": 1000, "wall_s": 25}, map[string]int{"K": 4, "B": 2, "strlen": 8, "paths": 30000, "wall_s": 600}),
